@@ -424,7 +424,14 @@ fn run_case<T: Sc>(ctx: &Ctx, c: &Case, prop: &str, tt: &TTable, seed: u64) {
         };
         ctx.with(|s| s.bucket("nu", &format!("{:03}", nu)));
         let mut prev: Option<DVector<T>> = None;
-        for (pbits, _q, ts) in &tt.rows {
+        // query order: the largest level first, then the ascending sweep - so the first request of every fit repeats the
+        // level of the last request of the previous fit (a quantile memoised per level but not per degrees of freedom shows)
+        let order: Vec<usize> = std::iter::once(tt.rows.len() - 1).chain(0..tt.rows.len()).collect();
+        for (qi, &ri) in order.iter().enumerate() {
+            let (pbits, _q, ts) = &tt.rows[ri];
+            if qi == 0 {
+                prev = None;
+            }
             let pv = T::from_bits64(*pbits);
             let t_ref = ts[nu_idx];
             let r = guarded(|| stats.confidence_band_radius(pv));
@@ -482,7 +489,7 @@ fn run_case<T: Sc>(ctx: &Ctx, c: &Case, prop: &str, tt: &TTable, seed: u64) {
                     }
                 }
             }
-            prev = Some(rad);
+            prev = if qi == 0 { None } else { Some(rad) };
         }
         // illegal probabilities must be rejected by a panic
         for bad in [0.0, -0.0, 1.0, -0.1, 1.5, f64::NAN, f64::INFINITY, f64::NEG_INFINITY] {
